@@ -9,6 +9,11 @@
                              NotifyApplySnap, until GetApplySnapStatus says ApplySuccess)
      node/log_sender.go      sendRaftLog / notifyTransferSnap / notifyApplySnap retry loops: a request may be lost before
                              it reaches the receiver, or its response may be lost after it was handled
+     node/syncer_learner.go  two learners of the same source: the forwarding one and a stand-by in ignore mode
+                             (switchIgnoreSend / waitIgnoreUntilChanged: a stand-by passes an entry only once the
+                             receiver's position covers it); the learner's own raft snapshot (GetSnapshot waits for the
+                             buffered logs and fails on the time-out: a snapshot is taken only with the buffer drained),
+                             from which a restarted learner replays its raft log
    Everything the code does with timers (retry back-off, the 5 s / 10 s polling, the status machine's 5 minute
    time-outs) is an event that may or may not happen at any moment.  Not modelled: IsSyncerNormalInit (a "skipped"
    snapshot advances the position without data by the operator's decision), several receiver replicas.
@@ -20,9 +25,11 @@ Open Scope N_scope.
 Record sender := mkSd {
   sd_buf : nat;                   (* everything before it has been acknowledged by the receiver (or skipped as covered) *)
   sd_next : nat;                  (* next source entry the learner's apply loop will hand to the send loop *)
-  sd_state : option sstate        (* the remote synced position fetched when this send loop started *)
+  sd_state : option sstate;       (* the remote synced position fetched when this send loop started *)
+  sd_snap : nat;                  (* the learner's own last raft snapshot: where a restart replays from *)
+  sd_fwd : bool                   (* true: the forwarding learner; false: stand-by (ignore mode) *)
 }.
-Definition init_sender : sender := mkSd 0 0 None.
+Definition init_sender : sender := mkSd 0 0 None 0 true.
 
 Definition slice {A : Type} (l : list A) (a b : nat) : list A := firstn (b - a) (skipn a l).
 
@@ -35,15 +42,18 @@ Definition is_newer2 (o : option sstate) (t i : N) : bool :=
 
 Inductive fault := FNone | FRespLost | FReqLost.
 
+(* w selects the learner: two learners of the same source apply the same raft log *)
 Inductive ev :=
-| EFeed                                   (* the learner applies its next raft entry: it joins the send buffer *)
-| ESend (f : fault)                       (* the buffer goes out as one ApplyRaftReqs call *)
-| ESenderRestart (j : nat)                (* the learner restarts and replays its raft log from source position j *)
-| ESnapCheck (m : nat)                    (* PrepareSnapshot for the raft snapshot covering m entries: remote already newer *)
+| EFeed (w : bool)                        (* the learner applies its next raft entry *)
+| ESend (w : bool) (f : fault)            (* its buffer goes out as one ApplyRaftReqs call *)
+| ELearnerSnapshot (w : bool)             (* its raft asks for a snapshot (GetSnapshot) *)
+| ELearnerRestart (w : bool)              (* it restarts and replays its raft log behind its last snapshot *)
+| ESwitch (w : bool) (fwd : bool)         (* the placement driver makes it the forwarding learner / a stand-by *)
+| ESnapCheck (w : bool) (m : nat)         (* PrepareSnapshot for the raft snapshot covering m entries: remote already newer *)
 | ENotifyTransfer (m : nat) (f : fault)   (* NotifyTransferSnap for it *)
 | ENotifyApply (m : nat) (files : bool) (f : fault)
                                           (* NotifyApplySnap; files: the checkpoint has reached the receiver *)
-| ESnapDone (m : nat)                     (* GetApplySnapStatus = ApplySuccess: the learner goes on behind the snapshot *)
+| ESnapDone (w : bool) (m : nat)          (* GetApplySnapStatus = ApplySuccess: the learner goes on behind the snapshot *)
 | ERecv (o : op).                         (* the receiver's own events: snapshot, crash/restart, local write, time-out *)
 
 Definition recv_event_ok (o : op) : bool :=
@@ -52,74 +62,121 @@ Definition recv_event_ok (o : op) : bool :=
   | _ => false
   end.
 
-(* how many source entries the receiver's recorded position covers *)
-Definition covered_count (c : N) (src : list sentry) (nd : node) : nat :=
-  match sm_get c (r_synced (n_cur nd)) with
-  | None => 0%nat
-  | Some o => length (filter (fun e => s_index e <=? ss_index o) src)
-  end.
-
 Definition pos_at (src : list sentry) (m : nat) : option (N * N) :=
   match m with
   | O => None
   | S j => match nth_error src j with Some e => Some (s_term e, s_index e) | None => None end
   end.
 
-Definition sys := (node * sender)%type.
-Definition init_sys : sys := (init_node, init_sender).
+Definition sys := (node * (sender * sender))%type.
+Definition init_sys : sys := (init_node, (init_sender, mkSd 0 0 None 0 false)).
 
-Definition sys_step (c : N) (src : list sentry) (s : sys) (e : ev) : sys :=
-  let '(nd, sd) := s in
+Definition get_sd (w : bool) (p : sender * sender) : sender := if w then fst p else snd p.
+Definition set_sd (w : bool) (p : sender * sender) (sd : sender) : sender * sender :=
+  if w then (sd, snd p) else (fst p, sd).
+
+(* one learner's own step; returns the (possibly changed) receiver and the learner *)
+Definition learner_step (c : N) (src : list sentry) (nd : node) (sd : sender) (e : ev) : node * sender :=
   match e with
-  | EFeed =>
-      if (sd_next sd <? length src)%nat then (nd, mkSd (sd_buf sd) (S (sd_next sd)) (sd_state sd)) else s
-  | ESend f =>
+  | EFeed _ =>
+      if (sd_next sd <? length src)%nat then
+        if sd_fwd sd then (nd, mkSd (sd_buf sd) (S (sd_next sd)) (sd_state sd) (sd_snap sd) (sd_fwd sd))
+        else
+          (* stand-by: waitIgnoreUntilChanged lets the entry pass only when the receiver's position covers it *)
+          match pos_at src (S (sd_next sd)) with
+          | Some (t, i) =>
+              if is_newer2 (sm_get c (r_synced (n_cur nd))) t i
+              then (nd, mkSd (if (sd_buf sd =? sd_next sd)%nat then S (sd_next sd) else sd_buf sd) (S (sd_next sd))
+                             (sd_state sd) (sd_snap sd) (sd_fwd sd))
+              else (nd, sd)
+          | None => (nd, sd)
+          end
+      else (nd, sd)
+  | ESend _ f =>
       let batch := slice src (sd_buf sd) (sd_next sd) in
       match rev batch with
-      | [] => s
+      | [] => (nd, sd)
       | lst :: _ =>
           if is_newer2 (sd_state sd) (s_term lst) (s_index lst)
-          then (nd, mkSd (sd_next sd) (sd_next sd) (sd_state sd))      (* "remote is already replayed this raft log" *)
+          then (nd, mkSd (sd_next sd) (sd_next sd) (sd_state sd) (sd_snap sd) (sd_fwd sd))   (* "remote is already replayed this raft log" *)
           else match f with
-               | FReqLost => s
+               | FReqLost => (nd, sd)
                | FNone => (fst (step nd (ORpc (map (fun x => (x, true)) batch))),
-                           mkSd (sd_next sd) (sd_next sd) (sd_state sd))
+                           mkSd (sd_next sd) (sd_next sd) (sd_state sd) (sd_snap sd) (sd_fwd sd))
                | FRespLost => (fst (step nd (ORpc (map (fun x => (x, true)) batch))), sd)
                end
       end
-  | ESenderRestart j =>
-      (* the learner's own snapshot waits for the buffered logs, so its replay starts at an entry the receiver has *)
-      if (j <=? covered_count c src nd)%nat
-      then (nd, mkSd j j (sm_get c (r_synced (n_cur nd))))
-      else s
-  | ESnapCheck m =>
+  | ELearnerSnapshot _ =>
+      (* logSyncerSM.GetSnapshot: waitBufferedLogs(10 s); on the time-out the snapshot FAILS *)
+      if (sd_buf sd =? sd_next sd)%nat
+      then (nd, mkSd (sd_buf sd) (sd_next sd) (sd_state sd) (sd_next sd) (sd_fwd sd))
+      else (nd, sd)
+  | ELearnerRestart _ =>
+      (nd, mkSd (sd_snap sd) (sd_snap sd) (sm_get c (r_synced (n_cur nd))) (sd_snap sd) (sd_fwd sd))
+  | ESwitch _ fwd =>
+      (nd, mkSd (sd_buf sd) (sd_next sd) (sd_state sd) (sd_snap sd) fwd)
+  | ESnapCheck _ m =>
       match pos_at src m with
       | Some (t, i) =>
           if is_newer2 (sm_get c (r_synced (n_cur nd))) t i && (sd_next sd <=? m)%nat
-          then (nd, mkSd m m (sd_state sd)) else s
-      | None => s
+          then (nd, mkSd m m (sd_state sd) (sd_snap sd) (sd_fwd sd)) else (nd, sd)
+      | None => (nd, sd)
       end
-  | ENotifyTransfer m f =>
-      match pos_at src m, f with
-      | Some (t, i), FNone | Some (t, i), FRespLost => (fst (step nd (OSnapRpc (OXfer c t i))), sd)
-      | _, _ => s
-      end
-  | ENotifyApply m files f =>
-      match pos_at src m, f with
-      | Some (t, i), FNone | Some (t, i), FRespLost =>
-          let content := if files then Some (map (fun x => (c, s_payload x)) (firstn m src)) else None in
-          (fst (step nd (OSnapRpc (OSnapReq c t i content))), sd)
-      | _, _ => s
-      end
-  | ESnapDone m =>
+  | ESnapDone _ m =>
       match pos_at src m with
       | Some (t, i) =>
           if (apply_status_rsp nd c t i =? 4) && (sd_buf sd =? sd_next sd)%nat && (sd_next sd <=? m)%nat
-          then (nd, mkSd m m (sd_state sd)) else s
-      | None => s
+          then (nd, mkSd m m (sd_state sd) (sd_snap sd) (sd_fwd sd)) else (nd, sd)
+      | None => (nd, sd)
       end
-  | ERecv o =>
-      if recv_event_ok o then (fst (step nd o), sd) else s
+  | _ => (nd, sd)
+  end.
+
+Definition ev_learner (e : ev) : option bool :=
+  match e with
+  | EFeed w | ESend w _ | ELearnerSnapshot w | ELearnerRestart w | ESwitch w _ | ESnapCheck w _ | ESnapDone w _ => Some w
+  | _ => None
+  end.
+
+Definition sys_step (c : N) (src : list sentry) (s : sys) (e : ev) : sys :=
+  let '(nd, p) := s in
+  match ev_learner e with
+  | Some w =>
+      let '(nd', sd') := learner_step c src nd (get_sd w p) e in (nd', set_sd w p sd')
+  | None =>
+      match e with
+      | ENotifyTransfer m f =>
+          match pos_at src m, f with
+          | Some (t, i), FNone | Some (t, i), FRespLost => (fst (step nd (OSnapRpc (OXfer c t i))), p)
+          | _, _ => s
+          end
+      | ENotifyApply m files f =>
+          match pos_at src m, f with
+          | Some (t, i), FNone | Some (t, i), FRespLost =>
+              let content := if files then Some (map (fun x => (c, s_payload x)) (firstn m src)) else None in
+              (fst (step nd (OSnapRpc (OSnapReq c t i content))), p)
+          | _, _ => s
+          end
+      | ERecv o => if recv_event_ok o then (fst (step nd o), p) else s
+      | _ => s
+      end
   end.
 
 Definition sys_run (c : N) (src : list sentry) (evs : list ev) : sys := fold_left (sys_step c src) evs init_sys.
+
+(* the variant in which the learner's raft snapshot is taken although buffered logs are still unsent
+   (what a GetSnapshot that swallows the time-out does): only for the refutation in the proofs *)
+Definition learner_step_loose (c : N) (src : list sentry) (nd : node) (sd : sender) (e : ev) : node * sender :=
+  match e with
+  | ELearnerSnapshot _ => (nd, mkSd (sd_buf sd) (sd_next sd) (sd_state sd) (sd_next sd) (sd_fwd sd))
+  | _ => learner_step c src nd sd e
+  end.
+
+Definition sys_step_loose (c : N) (src : list sentry) (s : sys) (e : ev) : sys :=
+  let '(nd, p) := s in
+  match ev_learner e with
+  | Some w => let '(nd', sd') := learner_step_loose c src nd (get_sd w p) e in (nd', set_sd w p sd')
+  | None => sys_step c src s e
+  end.
+Definition sys_run_loose (c : N) (src : list sentry) (evs : list ev) : sys :=
+  fold_left (sys_step_loose c src) evs init_sys.
